@@ -303,6 +303,7 @@ static CMR_ERROR op_mat(CMR* cmr, TOKS* t, OUT* o)
 
 /* ---------- text I/O ---------- */
 
+static int trailing_token(FILE* f);
 static int hexval(char c) { return c >= '0' && c <= '9' ? c - '0' : c >= 'a' && c <= 'f' ? c - 'a' + 10 : -1; }
 
 /* parse <dense|sparse|submat> <c|i|d> <hex bytes | ->   (for submat the "type" token carries "numRows,numColumns" is not needed) */
@@ -329,6 +330,7 @@ static CMR_ERROR op_parse(CMR* cmr, TOKS* t, OUT* o)
   {
     CMR_SUBMAT* s = NULL; size_t nr = 0, nc = 0;
     e = CMRsubmatReadFromStream(cmr, &s, &nr, &nc, f);
+    if (!e && trailing_token(f)) { CMRsubmatFree(cmr, &s); e = CMR_ERROR_INPUT; }
     if (!e) { out_fmt(o, " %zu %zu", nr, nc); out_submat(o, s); }
     if (s) CMRsubmatFree(cmr, &s);
   }
@@ -336,6 +338,7 @@ static CMR_ERROR op_parse(CMR* cmr, TOKS* t, OUT* o)
   {
     CMR_CHRMAT* A = NULL;
     e = !strcmp(fmt, "dense") ? CMRchrmatCreateFromDenseStream(cmr, f, &A) : CMRchrmatCreateFromSparseStream(cmr, f, &A);
+    if (!e && trailing_token(f)) { CMRchrmatFree(cmr, &A); e = CMR_ERROR_INPUT; }
     if (!e) out_chrmat(o, A); else if (A) out_str(o, " outs=1");
     if (A) CMRchrmatFree(cmr, &A);
   }
@@ -343,6 +346,7 @@ static CMR_ERROR op_parse(CMR* cmr, TOKS* t, OUT* o)
   {
     CMR_INTMAT* A = NULL;
     e = !strcmp(fmt, "dense") ? CMRintmatCreateFromDenseStream(cmr, f, &A) : CMRintmatCreateFromSparseStream(cmr, f, &A);
+    if (!e && trailing_token(f)) { CMRintmatFree(cmr, &A); e = CMR_ERROR_INPUT; }
     if (!e) out_intmat(o, A); else if (A) out_str(o, " outs=1");
     if (A) CMRintmatFree(cmr, &A);
   }
@@ -356,6 +360,13 @@ static CMR_ERROR op_parse(CMR* cmr, TOKS* t, OUT* o)
   fclose(f);
   free(buf);
   return e;
+}
+
+/* after a successful read: is there another token in the stream?  (the *File readers treat that as an input error) */
+static int trailing_token(FILE* f)
+{
+  char token[20];
+  return fscanf(f, "%16s", token) > 0 && strlen(token) > 0;
 }
 
 static void out_hex(OUT* o, const char* buf, size_t n)
